@@ -51,6 +51,7 @@ pub struct L2Observed {
     pub events: Vec<l2::HookEvent>,
     pub http_log: Vec<http::ReqLog>,
     pub header: crate::refs::format::Header,
+    pub seed_pipe_used: bool,
 }
 
 /// Run one L2 scenario and return what was observed. `extra_hook` lets callers inject faults.
@@ -76,6 +77,7 @@ pub fn execute_on(prop: &str, c: &L2Scen, e: &Expect, extra_hook: Option<l2::Hoo
     // seeds
     let mut args: Vec<String> = vec![];
     let mut stdin: Option<Vec<u8>> = None;
+    let mut seed_pipes: Vec<l2::FifoFeeder> = vec![];
     let stdin_idx = c.stdin_seed.map(|i| i as usize).filter(|i| *i < e.seeds.len());
     for (i, sd) in e.seeds.iter().enumerate() {
         if Some(i) == stdin_idx {
@@ -84,7 +86,13 @@ pub fn execute_on(prop: &str, c: &L2Scen, e: &Expect, extra_hook: Option<l2::Hoo
             args.push("-".into());
         } else {
             let name = format!("seed{}.bin", i);
-            l2::write_file(&dir.join(&name), sd);
+            // a seed file may be a named pipe (a function of the case): a seed is a stream, whatever its metadata says
+            let as_pipe = std::env::var("BVERIF_NO_VERBOSITY").is_err() && blake2_64(&[&case_salt().to_le_bytes(), b"seed-pipe", &[i as u8]]) % 6 == 0;
+            if as_pipe {
+                seed_pipes.push(l2::FifoFeeder::start(&dir.join(&name), (**sd).clone())?);
+            } else {
+                l2::write_file(&dir.join(&name), sd);
+            }
             args.push("--seed".into());
             args.push(name);
         }
@@ -119,13 +127,17 @@ pub fn execute_on(prop: &str, c: &L2Scen, e: &Expect, extra_hook: Option<l2::Hoo
     let srv = if c.http { Some(http::Server::start(Arc::new(archive.clone()), http::Script::default())) } else { None };
     let arch_arg = srv.as_ref().map(|s| s.url()).unwrap_or_else(|| "a.cba".to_string());
     let (run, mut output) = clone_cli(&dir, &arch_arg, device.unwrap_or("o.out"), &args, stdin, Some((&hook, &log)), s.block_dev && device.is_none(), &env);
+    let seed_pipe_used = !seed_pipes.is_empty();
+    for f in seed_pipes {
+        f.finish();
+    }
     if let Some(d) = device {
         output = std::fs::read(d).ok();
     }
     let http_log = srv.as_ref().map(|s| s.requests()).unwrap_or_default();
     drop(srv);
     let events = l2::parse_hook_log(&log);
-    Ok(L2Observed { run, output, events, http_log, header })
+    Ok(L2Observed { run, output, events, http_log, header, seed_pipe_used })
 }
 
 fn ranges_union_exact(mut got: Vec<(u64, u64)>, mut want: Vec<(u64, u64)>) -> Result<(), String> {
@@ -294,6 +306,7 @@ pub fn l2_scenario(prop: &str, c: &L2Scen, rec: &mut CaseRec, nontrivial: &dyn F
     classify_scenario(rec, s, &e);
     rec.level = Some("L2");
     rec.class_if(c.http, "http");
+    rec.class_if(o.seed_pipe_used, "seed_file_is_a_named_pipe");
     rec.class_if(c.fault.is_some(), "clone_succeeded_with_an_injected_fault_(or_the_fault_was_never_reached)");
     rec.class_if(c.stdin_seed.map(|i| (i as usize) < e.seeds.len()).unwrap_or(false), "stdin_seed");
     nontrivial(s, &e, rec);
